@@ -257,6 +257,20 @@ pub fn run_migrate(args: &Args) {
                 rows.push(json!({"id": pid, "reg": reg, "name": name, "updated": upd, "fetching": fs, "not_found": nf, "vs": vs, "tags": tg}));
             }
         }
+        // every second case: a first open that is interrupted by a database error at one statement point of schema
+        // creation / migration (what a failing disk or a second server holding the write lock does); the opens that
+        // follow are retries and must succeed on whatever the interrupted one left behind
+        let mut interrupted = Value::Null;
+        if r.chance(1, 2) {
+            let pts: [(&str, u32); 9] = [("create_schema", 1), ("create_schema", 2), ("create_schema", 3), ("create_schema", 4), ("create_schema", 5), ("create_schema", 6),
+                                          ("apply_migrations", 0), ("apply_migrations", 1), ("apply_migrations", 2)];
+            let (f, p) = *r.pick(&pts);
+            arm(f.to_string(), p, 0, false);
+            let res = Cache::new(&path, 86_400_000, true).is_ok();
+            let fired = COUNT.load(Ordering::SeqCst) > 0;
+            verif_hooks::set_point_handler(None);
+            interrupted = json!({"point": [f, p], "fired": fired, "open_ok": res});
+        }
         // open 1..3 times
         let opens = 1 + r.below(3);
         let mut results = vec![];
@@ -281,11 +295,11 @@ pub fn run_migrate(args: &Args) {
                 let o = rnd_write(&mut r, &keys, now);
                 let ret = apply_op(c, &o);
                 ops.push(o);
-                outs.push(json!({"ret": ret, "db": raw_tables(&path)}));
+                outs.push(json!({"ret": ret, "db": raw_tables_or_err(&path)}));
             }
         }
         verif_hooks::set_clock(None);
-        emit(json!({"shape": [hf, hn, uv], "rows": rows, "opens": opens, "ops": ops}),
+        emit(json!({"shape": [hf, hn, uv], "rows": rows, "opens": opens, "ops": ops, "interrupted_first_open": interrupted}),
              json!({"open_results": results, "after_open": after_open, "user_version": uv_after, "steps": outs}));
     }
 }
